@@ -98,6 +98,20 @@ def belongs(value, kind):
     t = type(value)
     if t is kind:
         return True
+    # an instance of a SUBCLASS of a builtin kind (an IntEnum member, a str subclass, struct_time) is a value of that kind
+    if t not in NUM_CHAIN and t not in TMP_CHAIN:
+        for base in (bool, int, float, complex, str, bytes):
+            if isinstance(value, base):
+                t = base
+                break
+        else:
+            import datetime as _dtm
+            if isinstance(value, _dtm.datetime):
+                t = _dtm.datetime
+            elif isinstance(value, _dtm.date):
+                t = _dtm.date
+        if t is kind:
+            return True
     if kind in NUM_CHAIN and t in NUM_CHAIN:
         return NUM_CHAIN.index(t) <= NUM_CHAIN.index(kind)
     if kind in TMP_CHAIN and t in TMP_CHAIN:
